@@ -249,13 +249,20 @@ def job_dtype(job, seed):
 F32_RANGES = {'time': (Fraction(1, 10**6), Fraction(1, 10)), 'length': (Fraction(1, 10), Fraction(1000)), 'energy': (Fraction(1602176634, 10**34), Fraction(1602176634, 10**27)),
               'wavelength': (Fraction(1, 10**11), Fraction(2, 10**9)), 'invlength': (Fraction(10**8), Fraction(10**11)), 'angle': (Fraction(1, 100), Fraction(31, 10))}
 
+# C01 quantifies over 1e-9..1e9 SI; these sub-ranges keep every exact result a normal float32 number in the documented output unit, so any
+# single-precision intermediate that leaves the float32 range loses the result although it is representable
+F32_RANGES_WIDE = {'time': (Fraction(1, 10**9), Fraction(1, 10)), 'length': (Fraction(1, 100), Fraction(1000)), 'energy': (Fraction(1602176634, 10**35), Fraction(1602176634, 10**24)),
+                   'wavelength': (Fraction(1, 10**12), Fraction(1, 10**8)), 'invlength': (Fraction(10**7), Fraction(10**12)), 'angle': (Fraction(1, 100), Fraction(31, 10))}
+
 
 def job_f32range(job, seed):
     """All-single-precision operands in symbolic units: every value the kernel materialises in float32 from a wider
     intermediate (unit-scaled physical constants above all) is zero or a NORMAL float32 number for every unit choice of the
     quantifier grid (ns..s, angstrom..km, micro-eV..J) and inputs in their ranges; otherwise re-expressing an input in
     another unit changes the result by far more than rounding."""
-    si, dts = job
+    si, dts = job[:2]
+    wide = len(job) > 2  # (si, dts, 'wide', property id): C01's value ranges, every single-precision product / quotient / power as well
+    prop = job[3] if wide else 'C07'
     from symex import core as C
     from symsc import variable as V
     from .symutil import f32_range_obligations, fresh_run
@@ -269,17 +276,20 @@ def job_f32range(job, seed):
     case = {'kind': 'f32range', 'spec': si, 'fname': fname, 'dtypes': list(dts)}
     kw = {a: _mk(a, k, None, dt, True) for (a, k), dt in zip(args.items(), dts, strict=True)}
     V.F32_LOG.clear()
+    V.F32_RES_LOG.clear()
     C.CTX.fork_timeout_ms = 3000
     paths = C.explore(lambda: f(**kw))
-    terms = list(V.F32_LOG)
+    terms = list(V.F32_LOG) + (list(V.F32_RES_LOG) if wide else [])
     sig = {f'sigma_{a}': k for a, k in args.items() if k != 'angle'}
-    rng = {a: (*F32_RANGES[k], None) for a, k in args.items() if k != 'angle'}
+    rng = {a: (*(F32_RANGES_WIDE if wide else F32_RANGES)[k], None) for a, k in args.items() if k != 'angle'}
+    if wide:
+        case['wide'] = True
     o2, bad, notes = f32_range_obligations(f'{tag}:f32range', terms, sig, rng)
     obs += [ob_dict(o) for o in o2]
     ob = C.prove(f'{tag}:f32range:explored ({len(paths)} paths, {len(terms)} single-precision materialisations, {len(o2)} range-checked)', C.B.const(any(p.exc is None and not p.inconclusive for p in paths)))
     obs.append(ob_dict(ob))
     for term, units in bad:
-        cands.append((f'C07:{fname}:float32-range', {**case, 'units': {k[len("sigma_"):]: v for k, v in units.items()}}, f'{term} is subnormal / zero / out of range in float32 for units {units}'))
+        cands.append((f'{prop}:{fname}:float32-range', {**case, 'units': {k[len("sigma_"):]: v for k, v in units.items()}}, f'{term} is subnormal / zero / out of range in float32 for units {units}'))
     return {'obligations': obs, 'candidates': cands, 'paths': len(paths), 'notes': notes}
 
 
